@@ -148,6 +148,16 @@ pub fn run() -> Report {
     for p in parts {
         rep.merge(p);
     }
+    // short / interrupted / failing reads on the obfuscated blk files (every read the run issues, one or two deviations):
+    // the de-obfuscation must follow the bytes actually delivered. Blocks of 40 and 100 KiB make every block span several reads.
+    for (label, chain, key) in [("xor-small", &small, vec![0xc3u8, 0x1e, 0x79]), ("xor-big", &big, (0..7u8).map(|i| i.wrapping_mul(91).wrapping_add(0xc3)).collect::<Vec<u8>>())] {
+        let blocks = (0..chain.blocks.len()).map(|b| (b, Gap::FakeMagic, None)).collect();
+        let layout = Layout { files: vec![(0, None, blocks)], index_form: 0, junk_keys: false, foreign_entries: false, label: label.to_string() };
+        let plain_world = build_world(btc, &chain.blocks, 0, &layout);
+        let mut xor_world = plain_world.clone();
+        xor_world.xor_key = Some(key);
+        crate::c10::read_deviations(&mut rep, &root, "C11", &xor_world, &plain_world, label, &["csvdump", "opreturn"]);
+    }
     let _ = std::fs::remove_dir_all(&root);
     rep
 }
